@@ -399,4 +399,23 @@ Proof.
   split; [apply router_lookup_pre_eq|]. split; [apply da_router_lookup_pre_eq|apply answer_ok_pre_eq].
 Qed.
 
+Lemma shape_eqb_sc_eq (a : shape) : forall b, shape_eqb_sc a b = shape_eqb a b.
+Proof.
+  (* andb a b unfolds to if a then b else false: the two fixpoints have convertible bodies *)
+  induction a as [|x a IH]; intros [|y b]; cbn [shape_eqb_sc shape_eqb]; reflexivity.
+Qed.
+
+Lemma nodup_shapes_sc_eq (l : list shape) : nodup_shapes_sc l = nodup_shapes_b l.
+Proof.
+  induction l as [|x r IH]; [reflexivity|]. cbn [nodup_shapes_sc nodup_shapes_b].
+  rewrite IH, (existsb_ext' _ _ r (shape_eqb_sc_eq x)).
+  destruct (existsb (shape_eqb x) r); reflexivity.
+Qed.
+
+Theorem wf_patset_sc_eq (pats : list (bytes * V)) : wf_patset_sc pats = wf_patset pats.
+Proof.
+  unfold wf_patset_sc, wf_patset. rewrite nodup_shapes_sc_eq.
+  destruct (forallb (fun kv => key_ok (fst kv)) pats); reflexivity.
+Qed.
+
 End SharedProofs.
